@@ -1,11 +1,12 @@
 import Pysmi.Generated.Skeletons
 /-!
-# Pins (C13): the control skeletons the hand-written models were written against
+# Pins (C13): the control skeletons the hand-written models and oracles were written against
 
-`Generated/Skeletons.lean` is rewritten from the source on every run (calls other than logging and pure builtins, raises with
-their exception class, returns, loops, branches, handlers - in source order).  Each hand-written model follows one of these
-methods; the literal below is the skeleton it was written against.  A structural change of the method breaks its pin - which
-is not by itself a violation: the check then searches model and code for a failing input and reports what it finds.
+`Generated/Skeletons.lean` is rewritten from the source on every run (calls other than logging, string plumbing and pure
+builtins, raises with their exception class, returns, loops, branches, handlers - in source order; for the scripts also the
+exit status of every `sys.exit`).  A structural change of one of these methods breaks its pin - which is not by itself a
+violation: the check then searches model and code for a failing input and reports what it finds.
+(Literals written by harness/tools/repin.py when the models were last brought in line with the source.)
 -/
 namespace Pysmi.Pins.SkelC13
 open Pysmi.Generated.Skeletons
@@ -13,25 +14,23 @@ open Pysmi.Generated.Skeletons
 /-- FileWriter.putData (pysmi/writer/localfile.py) -/
 theorem pin_fileWriterPut : fileWriterPut = [
     "if", "return", "if", "call:os.path.exists", "call:os.makedirs", "except:OSError", "raise:error.PySmiWriterError",
-    "call:error.PySmiWriterError", "call:sys.exc_info", "if", "call:''.join", "call:os.path.join",
-    "call:tempfile.mkstemp", "loop", "call:os.write", "call:os.close", "call:os.rename",
-    "except:(OSError, IOError, UnicodeEncodeError)", "call:sys.exc_info", "if", "call:os.unlink", "except:OSError",
-    "raise:error.PySmiWriterError", "call:error.PySmiWriterError"] := by decide
+    "call:error.PySmiWriterError", "call:sys.exc_info", "if", "call:tempfile.mkstemp", "loop", "call:os.close",
+    "call:os.rename", "except:(OSError, IOError, UnicodeEncodeError)", "call:sys.exc_info", "if", "call:os.unlink",
+    "except:OSError", "raise:error.PySmiWriterError", "call:error.PySmiWriterError"] := by decide
 
 /-- FileWriter.getData (pysmi/writer/localfile.py) -/
 theorem pin_fileWriterGet : fileWriterGet = [
-    "call:os.path.join", "call:open", "call:f.read", "call:f.close", "return:value",
-    "except:(OSError, IOError, UnicodeEncodeError)", "if", "call:f.close", "return:value"] := by decide
+    "call:open", "call:f.read", "call:f.close", "return:value", "except:(OSError, IOError, UnicodeEncodeError)", "if",
+    "call:f.close", "return:value"] := by decide
 
 /-- PyFileWriter.putData (pysmi/writer/pyfile.py) -/
 theorem pin_pyFileWriterPut : pyFileWriterPut = [
     "if", "return", "if", "call:os.path.exists", "call:os.makedirs", "except:OSError", "raise:error.PySmiWriterError",
-    "call:error.PySmiWriterError", "call:sys.exc_info", "if", "call:''.join", "call:os.path.join",
-    "call:tempfile.mkstemp", "loop", "call:os.write", "call:os.close", "call:os.rename",
-    "except:(OSError, IOError, UnicodeEncodeError)", "call:sys.exc_info", "if", "call:os.access", "call:os.unlink",
-    "raise:error.PySmiWriterError", "call:error.PySmiWriterError", "if", "if", "call:py_compile.compile",
-    "call:py_compile.compile", "except:(SyntaxError, py_compile.PyCompileError)", "except:Exception", "if",
-    "call:os.access", "call:os.unlink", "raise:error.PySmiWriterError", "call:error.PySmiWriterError",
-    "call:sys.exc_info"] := by decide
+    "call:error.PySmiWriterError", "call:sys.exc_info", "if", "call:tempfile.mkstemp", "loop", "call:os.close",
+    "call:os.rename", "except:(OSError, IOError, UnicodeEncodeError)", "call:sys.exc_info", "if", "call:os.access",
+    "call:os.unlink", "raise:error.PySmiWriterError", "call:error.PySmiWriterError", "if", "if",
+    "call:py_compile.compile", "call:py_compile.compile", "except:(SyntaxError, py_compile.PyCompileError)",
+    "except:Exception", "if", "call:os.access", "call:os.unlink", "raise:error.PySmiWriterError",
+    "call:error.PySmiWriterError", "call:sys.exc_info"] := by decide
 
 end Pysmi.Pins.SkelC13
